@@ -55,7 +55,13 @@ uint32_t xorshift128(struct xorshift128_state *state)
 	return state->x[0] = t ^ s ^ (s >> 19);
 }
 
-uint32_t XOR128_SEED = 0;
+/* The generator state is per thread: a worker that seeds itself draws its own stream,
+ * whatever the other threads do. */
+#if defined(_MSC_VER)
+__declspec(thread) uint32_t XOR128_SEED = 0;
+#else
+__thread uint32_t XOR128_SEED = 0;
+#endif
 
 void srand_(uint32_t seed)
 {
